@@ -92,4 +92,109 @@ Proof.
 case: (posnP n) => [->|n0]; last exact: mul_diag_upper_pos.
 by move=> _ _; apply/matrixP => -[].
 Qed.
+Lemma mul_diag_square_pos n (x d : vec F) (l u : tri F) C : (0 < n)%N -> size (mrow (tp u) 0) = tm u ->
+  qsm_mul fops (Diag n x) (Square d l u) = Some C -> den n C = den n (Diag n x) *m den n (Square d l u).
+Proof.
+move=> n0 wu; rewrite /qsm_mul /deconstruct; cbv beta iota.
+set rows := mkseq _ n.
+have E k : (k < n)%N -> nth (MkMulRow None [::] [::] None [::] [::] None) rows k = mul_row fops (Some x) None None (Some d) (Some l) (Some u) None None k.
+  by move=> kn; rewrite nth_mkseq.
+rewrite (E 0%N n0) /= /construct /= => -[<-] /=.
+rewrite !mulmxDr; congr (_ + _ + _).
+- rewrite -den_diag_mul /den_diag; congr diag_mx; apply/matrixP => i j.
+  by rewrite !mxE (nth_map (MkMulRow None [::] [::] None [::] [::] None)) ?size_mkseq // E //= nth_vmk.
+- rewrite (@den_sl_at_tm _ _ (tm l)); last by rewrite size_cat size_mkseq addn0.
+  rewrite den_diag_Dm /den_sl_at mulDL; apply: denSL_ext => k kn.
+  + rewrite /Pk /mrow /= (nth_map (MkMulRow None [::] [::] None [::] [::] None)) ?size_mkseq // E //= /cat2 /= cats0.
+    by rewrite rv_of_vscale /vget.
+  + by rewrite /Qk /mrow /= (nth_map (MkMulRow None [::] [::] None [::] [::] None)) ?size_mkseq // E //= /cat2 /= cats0.
+  + by rewrite /Ak /tget /= (nth_map (MkMulRow None [::] [::] None [::] [::] None)) ?size_mkseq // E.
+- rewrite (@den_sl_at_tm _ _ (tm u)); last by rewrite size_cat addn0; exact: wu.
+  rewrite den_diag_Dm -[Dm _ _]Dm_tr -trmx_mul /den_sl_at mulLD; congr (_^T); apply: denSL_ext => k kn.
+  + by rewrite /Pk /mrow /= (nth_map (MkMulRow None [::] [::] None [::] [::] None)) ?size_mkseq // E //= /cat2 /= cats0.
+  + rewrite /Qk /mrow /= (nth_map (MkMulRow None [::] [::] None [::] [::] None)) ?size_mkseq // E //= /cat2 /= cats0.
+    by rewrite cv_of_vscale /vget.
+  + by rewrite /Ak /tget /= (nth_map (MkMulRow None [::] [::] None [::] [::] None)) ?size_mkseq // E.
+Qed.
+
+(* diagonal @ square: both literal branches at once *)
+Theorem mul_diag_square_sound n (x d : vec F) (l u : tri F) C : size (mrow (tp u) 0) = tm u ->
+  qsm_mul fops (Diag n x) (Square d l u) = Some C -> den n C = den n (Diag n x) *m den n (Square d l u).
+Proof.
+case: (posnP n) => [->|n0]; last exact: mul_diag_square_pos.
+by move=> _ _; apply/matrixP => -[].
+Qed.
+(* diagonal @ symmetric: the symmetric matrix is read as the square matrix (d, l, l) *)
+Theorem mul_diag_symm_sound n (x d : vec F) (l : tri F) C : size (mrow (tp l) 0) = tm l ->
+  qsm_mul fops (Diag n x) (Symm d l) = Some C -> den n C = den n (Diag n x) *m den n (Symm d l).
+Proof. exact: (@mul_diag_square_sound n x d l l C). Qed.
+Lemma mul_diag_slower_pos n (x : vec F) (l : tri F) C : (0 < n)%N ->
+  qsm_mul fops (Diag n x) (SLower l) = Some C -> den n C = den n (Diag n x) *m den n (SLower l).
+Proof.
+move=> n0; rewrite /qsm_mul /deconstruct; cbv beta iota.
+set rows := mkseq _ n.
+have E k : (k < n)%N -> nth (MkMulRow None [::] [::] None [::] [::] None) rows k = mul_row fops (Some x) None None None (Some l) None None None k.
+  by move=> kn; rewrite nth_mkseq.
+rewrite (E 0%N n0) /= /construct /= => -[<-] /=.
+rewrite (@den_sl_at_tm _ _ (tm l)); last by rewrite size_cat size_mkseq addn0.
+rewrite den_diag_Dm /den_sl_at mulDL; apply: denSL_ext => k kn.
+- rewrite /Pk /mrow /= (nth_map (MkMulRow None [::] [::] None [::] [::] None)) ?size_mkseq // E //= /cat2 /= cats0.
+  by rewrite rv_of_vscale /vget.
+- by rewrite /Qk /mrow /= (nth_map (MkMulRow None [::] [::] None [::] [::] None)) ?size_mkseq // E //= /cat2 /= cats0.
+- by rewrite /Ak /tget /= (nth_map (MkMulRow None [::] [::] None [::] [::] None)) ?size_mkseq // E.
+Qed.
+Lemma mul_diag_supper_pos n (x : vec F) (u : tri F) C : (0 < n)%N -> size (mrow (tp u) 0) = tm u ->
+  qsm_mul fops (Diag n x) (SUpper u) = Some C -> den n C = den n (Diag n x) *m den n (SUpper u).
+Proof.
+move=> n0 wu; rewrite /qsm_mul /deconstruct; cbv beta iota.
+set rows := mkseq _ n.
+have E k : (k < n)%N -> nth (MkMulRow None [::] [::] None [::] [::] None) rows k = mul_row fops (Some x) None None None None (Some u) None None k.
+  by move=> kn; rewrite nth_mkseq.
+rewrite (E 0%N n0) /= /construct /= => -[<-] /=.
+rewrite (@den_sl_at_tm _ _ (tm u)); last by rewrite size_cat addn0; exact: wu.
+rewrite den_diag_Dm -[Dm _ _]Dm_tr -trmx_mul /den_sl_at mulLD; congr (_^T); apply: denSL_ext => k kn.
+- by rewrite /Pk /mrow /= (nth_map (MkMulRow None [::] [::] None [::] [::] None)) ?size_mkseq // E //= /cat2 /= cats0.
+- rewrite /Qk /mrow /= (nth_map (MkMulRow None [::] [::] None [::] [::] None)) ?size_mkseq // E //= /cat2 /= cats0.
+  by rewrite cv_of_vscale /vget.
+- by rewrite /Ak /tget /= (nth_map (MkMulRow None [::] [::] None [::] [::] None)) ?size_mkseq // E.
+Qed.
+Theorem mul_diag_slower_sound n (x : vec F) (l : tri F) C :
+  qsm_mul fops (Diag n x) (SLower l) = Some C -> den n C = den n (Diag n x) *m den n (SLower l).
+Proof.
+case: (posnP n) => [->|n0]; last exact: mul_diag_slower_pos.
+by move=> _; apply/matrixP => -[].
+Qed.
+Theorem mul_diag_supper_sound n (x : vec F) (u : tri F) C : size (mrow (tp u) 0) = tm u ->
+  qsm_mul fops (Diag n x) (SUpper u) = Some C -> den n C = den n (Diag n x) *m den n (SUpper u).
+Proof.
+case: (posnP n) => [->|n0]; last exact: mul_diag_supper_pos.
+by move=> _ _; apply/matrixP => -[].
+Qed.
+
+(* ---- the whole row "diagonal @ anything" of the literal model ---- *)
+Definition first_row_ok (B : qsm F) : Prop :=
+  match B with
+  | SUpper u | Upper _ u | Square _ _ u => size (mrow (tp u) 0) = tm u
+  | Symm _ l => size (mrow (tp l) 0) = tm l
+  | _ => True
+  end.
+Theorem mul_diag_any_sound n (x : vec F) B C : qwfn n B -> first_row_ok B ->
+  qsm_mul fops (Diag n x) B = Some C -> den n C = den n (Diag n x) *m den n B.
+Proof.
+case: B => [n' d|l|u|d l|d u|d l u|d l] /=.
+- by move/eqP=> -> _; exact: mul_diag_diag_sound.
+- by move=> _ _; exact: mul_diag_slower_sound.
+- by move=> _; exact: mul_diag_supper_sound.
+- by move=> _ _; exact: mul_diag_lower_sound.
+- by move=> _; exact: mul_diag_upper_sound.
+- by move=> _; exact: mul_diag_square_sound.
+- by move=> _; exact: mul_diag_symm_sound.
+Qed.
+(* the literal branches and the uniform form denote the same matrix on this row of the kind table *)
+Theorem mul_diag_any_agrees n (x : vec F) B C C' : qwfn n B -> first_row_ok B ->
+  qsm_mul fops (Diag n x) B = Some C -> qsm_mul_u fops (Diag n x) B = Some C' -> den n C = den n C'.
+Proof.
+move=> wB fB H H'; rewrite (mul_diag_any_sound wB fB H).
+by rewrite (@mul_sound _ sq lt n _ _ _ _ wB H') //= eqxx.
+Qed.
 End MulDiag.
